@@ -10,7 +10,7 @@ no hash cycles.  Both hold in the free term algebra (`freeAlg_is_ideal`).  `Tree
 both tries denote, `Tree.proveNodes` transcribes the two provers (`legacy = true`: `core/trie`,
 `false`: `core/trie2`), `verifyL` = `trie.VerifyProof`, `verify2` = `trie2.VerifyProof`.  `cfg : Cfg`
 selects the variant of the verifiers: `Cfg.asIs` is the code at the pinned commit, `Cfg.strict` the
-code with the three repairs of proposed-fixes/C10-*.diff; the harness probes the real code and
+code with proposed-fixes/C10-verifyproof-empty-trie.diff and C10-trie2-verifyproof-*.diff applied; the harness probes the real code and
 records which variant the correspondence was run against.  Heights are `0 < n < 256` (path
 positions are `uint8` in Go; juno uses 251).
 -/
@@ -230,6 +230,16 @@ theorem range_empty_sound_partial (A : HashAlg H) (hI : Ideal A) (rc : RCfg)
     (P : PSet H) (more : Bool) (h : verifyEmpty A rc (t.hash A) first P = RRes.ok more) :
     t.get A first = A.zero :=
   empty_sound hI rc hch hev hlh t n hwf hn first hk P more h
+
+/-- PARTIAL completeness (single element, any variant, either prover's node set): the range proof
+`GetRangeProof(k, k)` of a key that is in the trie is accepted for the key's value. Missing: the
+value of `more`, the other cases. -/
+theorem range_single_complete_partial (A : HashAlg H) (rc : RCfg) (t : Tree H) (n : Nat) (hwf : WF t n)
+    (hn : 0 < n) (h256 : n < 256) (k : Path) (hk : k.length = n) (hhas : t.has k = true)
+    (hv : t.get A k ≠ A.zero) (legacy cached : Bool) (P : PSet H)
+    (hlook : ∀ nd ∈ t.proveNodes A legacy cached k, P.get (nd.hash A) = some nd) :
+    ∃ more, verifySingle A rc (t.hash A) k (t.get A k) P = RRes.ok more :=
+  single_complete rc t n hwf hn h256 k hk hhas hv legacy cached P hlook
 
 /-- DEFECT (known finding `trie2:range:single-element-forged-node-under-root-hash`): with the code as
 it is, for EVERY root, key and non-zero value the one-node set `{root ↦ Edge(key, Value v)}` makes the
